@@ -56,7 +56,21 @@ def stream_smhash(ctx: Ctx, n: int):
     import props_marker as pm
     rng = random.Random(ctx.seed + 991)
     cases, seen, objs = [], set(), []
-    for desc, m, src in pm.derived(ctx, n, salt=78):
+    # grouped ==/!= atoms with two to six values (the objects whose hash goes through Set._hash), alone and inside compounds
+    pool = ["nt", "posix", "java", "linux", "win32", "darwin", "cygwin", "aix", "", "x86_64", "a b"]
+    grouped = []
+    for _ in range(max(30, n // 4)):
+        name = rng.choice(["os_name", "sys_platform", "platform_machine", "platform_system"])
+        vals = rng.sample(pool, rng.randint(2, 6))
+        t = (" or ".join(f'{name} == "{v}"' for v in vals)) if rng.random() < 0.5 else (" and ".join(f'{name} != "{v}"' for v in vals))
+        if rng.random() < 0.4:
+            t = f'({t}) {rng.choice(["and", "or"])} python_version >= "3.{rng.randint(6, 12)}"'
+        try:
+            grouped.append((f"parse({t!r})", pm.parse(t), [t]))
+        except Exception:  # noqa: BLE001
+            continue
+    import itertools
+    for desc, m, src in itertools.chain(grouped, pm.derived(ctx, n, salt=78)):
         try:
             cm = smark.cmarker(m)
         except Exception:  # noqa: BLE001
@@ -65,6 +79,8 @@ def stream_smhash(ctx: Ctx, n: int):
             continue
         seen.add(cm)
         objs.append((desc, m))
+        k = mg.kind(m)
+        ctx.coverage["streams"][f"S-mhash-input:{k}"] = ctx.coverage["streams"].get(f"S-mhash-input:{k}", 0) + 1
         try:
             cases.append((hcase(m), f"hash: {desc} -> {str(m)!r}"))
             m2 = reorder(m, rng)
